@@ -917,3 +917,27 @@ func (g *gen) famIndirectLeftRecursion() {
 	top := &Rule{Name: "top", Prods: []*Prod{{Terms: []*Term{rrefc("stmt", []Card{Star, Plus}[g.pick(2)])}}}}
 	s.Rules = []*Rule{top, stmt, mod, call, expr}
 }
+
+// GenerateReservedRuleNames builds a small accepted grammar in which parser
+// rules carry the names lox reserves for terminals only (ERROR, EOF): the rule
+// and the terminal then have the same TermName, a tie for every sort by name.
+func GenerateReservedRuleNames(seed uint64) *Spec {
+	g := &gen{r: core.NewRand(seed), s: &Spec{}}
+	g.s.Pkg = "main"
+	g.simpleLexer(true)
+	s := g.s
+	s.Family = "reserved-rule-names"
+	t := func(i int) *Term { return &Term{Kind: KTok, Name: g.toks[i%len(g.toks)]} }
+	errRule := &Rule{Name: "ERROR", Prods: []*Prod{{Terms: []*Term{t(2)}}}}
+	stmt := &Rule{Name: "stmt", Prods: []*Prod{{Terms: []*Term{rref("ERROR"), t(0)}}, {Terms: []*Term{errT(), t(0)}}, {Terms: []*Term{t(1)}}}}
+	top := &Rule{Name: "top", Prods: []*Prod{{Terms: []*Term{rrefc("stmt", Star)}}}}
+	s.Rules = []*Rule{top, stmt, errRule}
+	if g.chance(50) {
+		s.Rules = append(s.Rules, &Rule{Name: "EOF", Prods: []*Prod{{Terms: []*Term{t(3)}}}})
+		stmt.Prods = append(stmt.Prods, &Prod{Terms: []*Term{rref("EOF"), t(1)}})
+	}
+	for _, r := range s.Rules {
+		r.Ret = g.pick(4)
+	}
+	return s
+}
